@@ -55,3 +55,15 @@ Qed.
 (** table fact: the tolerance written in the source is not negative *)
 Lemma group_atol_nonneg : 0 <= group_atol.
 Proof. vm_compute. discriminate. Qed.
+
+(** a transactional add_dcm that refuses file 0 only (the first file of its group in [ex_l]) *)
+Definition add0 (st : list nat) (f : nat) : list nat * option err :=
+  if Nat.eqb f 0%nat then (st, Some EIncongruent) else (st ++ [f], None).
+Definition not0 (f : nat) : bool := negb (Nat.eqb f 0%nat).
+
+Lemma add0_transactional : transactional add0.
+Proof. intros st f e. unfold add0. destruct (Nat.eqb f 0); cbn [fst snd]; [reflexivity | discriminate]. Qed.
+
+(** a file that reads but whose meta data cannot be extracted, and one that reads without pixels *)
+Definition ex_xfault : rd nat := ExtractFault pix EValue.
+Definition ex_xnopix : rd nat := ExtractFault [] EValue.
